@@ -497,7 +497,10 @@ func UseFwd(a, b int) int {
 // consumes them in a drawn interleaving. Each sub-iterator must produce what it produces
 // when consumed alone (the reference runs the same consumer on coroutines).
 func nestedTemplates(r *prng.R, tag func() int) (src, ref []string, funcs []*Func) {
-	common := `type SubIt = «Iter[int]»
+	common := `// (declared in THIS rewritten file, called through a forwarding literal of another one)
+func millisOf(d time.Duration) int64 { return int64(d / time.Millisecond) }
+
+type SubIt = «Iter[int]»
 
 type subBox struct {
 	it «Iter[int]»
@@ -667,7 +670,7 @@ func UseSubsLazy(a, b int) int {
 // bystanders, blank, renamed and dot imports. All functions are registry entries.
 func optTemplates(r *prng.R, tag func() int) (imports, src, ref []string, funcs []*Func, plain []string) {
 	k1, k2, k3 := r.Range(1, 4), r.Range(5, 9), r.Range(0, 3)
-	imports = []string{`"strconv"`, `mb "math/bits"`, `_ "unicode/utf8"`, `. "sort"`}
+	imports = []string{`"strconv"`, `mb "math/bits"`, `_ "unicode/utf8"`, `. "sort"`, `"time"`}
 	common := fmt.Sprintf(`type cell struct{ n int }
 
 type frame struct {
@@ -808,6 +811,13 @@ func ByBuiltins(a, b int) int {
 	return vrt.V(%[6]d, l("abc")+int(cv(a))+id(b)+pk()+len(xs)+pinit+mb.OnesCount(uint(a+8)))
 }
 
+// "time" is mentioned in this file ONLY by the signature of a forwarding literal; its callee
+// lives in another rewritten file of the package
+func ByImportInSignature(a, b int) int {
+	ms := func(d time.Duration) int64 { return millisOf(d) }
+	return vrt.V(%[15]d, int(ms(1500000000))+a-b)
+}
+
 // no effect points inside (the function is atomic for the thread scheduler): it owns the
 // package-level state while it runs
 func UsePkgLevel(a, b int) int {
@@ -896,7 +906,7 @@ func ByPartialPkg(a, b int) int {
 	}
 	return vrt.V(%[13]d, r*100+int(same(wide(b)).(wide)))
 }
-`, k1, k2, k3, tag(), tag(), tag(), tag(), tag(), tag(), tag(), tag(), tag(), tag(), tag())
+`, k1, k2, k3, tag(), tag(), tag(), tag(), tag(), tag(), tag(), tag(), tag(), tag(), tag(), tag())
 	genSrc := fmt.Sprintf(`func optRows(n int) «Iter[[]int]» {
 	for i := 0; i < n; i++ {
 		«Yield»([]int{0, 0}) // an all-literal slice: a fresh one per iteration
@@ -1228,6 +1238,7 @@ func OptDelay(a, b int) (_ «Iter[int]») {
 		mk("OptPromotedNil", true, "loop_condition_promoted_method_nil_receiver"),
 		mk("OptPromotedNilClosure", true, "eta_shape_promoted_method_nil_receiver"),
 		mk("OptLookup", true, "plain_closure_in_generator_leaves_native_range_with_break_and_continue_result_type_any"),
+		mk("ByImportInSignature", false, "import_mentioned_only_by_the_signature_of_a_reducible_literal"),
 		mk("UseFrames", false, "yield_of_by_value_struct_and_array_parameters_written_through_fields"),
 	}
 	plain = []string{"// the only writer of pkgLevel2 (declared in a rewritten file) lives in this plain file\nfunc setLevel2(n int) { pkgLevel2 = n }\n"}
@@ -1248,7 +1259,7 @@ func DepthProg(r *prng.R, thorough bool) *Prog {
 	for i := range sizes {
 		sizes[i] += jit
 	}
-	ks := []int{3 + r.Intn(5), 997}
+	ks := []int{3 + r.Intn(5), 997, -1} // -1: the driver passes the trip count itself (one quiet stretch as long as the loop)
 	type tpl struct{ name, body string }
 	tpls := []tpl{
 		{"D1", fmt.Sprintf("for i := 0; i < n; i++ {\n\tvrt.E(%d)\n\tif i%%k != k-1 {\n\t\tcontinue\n\t}\n\t«Yield»(i)\n}", nt())},
@@ -1266,6 +1277,10 @@ func DepthProg(r *prng.R, thorough bool) *Prog {
 		// condition / post statement
 		{"D12", fmt.Sprintf("j := 0\nfor i := 0; i < n; i++ {\n\tfor vrt.B(%d, j < 0) {\n\t\t«Yield»(j)\n\t}\n\tif i%%k != k-1 {\n\t\tcontinue\n\t}\n\t«Yield»(i)\n}", nt())},
 		{"D13", fmt.Sprintf("j := 0\nfor i := 0; i < n; i++ {\n\tfor ; j < i%%2; j += vrt.V(%d, 1) {\n\t\tif j < 0 {\n\t\t\t«Yield»(j)\n\t\t}\n\t}\n\tj = 0\n\tif i%%k != k-1 {\n\t\tcontinue\n\t}\n\t«Yield»(i)\n}", nt())},
+		// the loop body is exactly ONE switch (no statement in front of it, no init) with a
+		// yielding case that is left by break: the runtime's Breakable wrapper is the whole body
+		{"D14", fmt.Sprintf("for i := 0; i < n; i++ {\n\tswitch {\n\tcase i%%k == k-1:\n\t\t«Yield»(i)\n\t\tif i%%2 == 0 {\n\t\t\tbreak\n\t\t}\n\t\tvrt.E(%d)\n\tdefault:\n\t\tvrt.E(%d)\n\t}\n}", nt(), nt())},
+		{"D15", fmt.Sprintf("i := 0\nfor ; i < n; i++ {\n\tswitch {\n\tcase i%%k != k-1:\n\t\tvrt.E(%d)\n\t\tbreak\n\tdefault:\n\t\t«Yield»(i)\n\t\tif i > 3 {\n\t\t\tbreak\n\t\t}\n\t\t«Yield»(-i)\n\t}\n}", nt())},
 		{"D9", fmt.Sprintf("i := 0\nfor i < n {\n\ti++\n\tswitch {\n\tcase i%%k == 0:\n\t\t«Yield»(i)\n\tdefault:\n\t\tvrt.E(%d)\n\t}\n}", nt())},
 	}
 	var src, ref []string
